@@ -592,6 +592,10 @@ func (p Patch) replace(doc *container, op Operation) error {
 	if path == "" {
 		val := op.value()
 
+		if val == nil {
+			return fmt.Errorf("replace operation value must be object or array: %w", ErrMissing)
+		}
+
 		if val.which == eRaw {
 			if !val.tryDoc() {
 				if !val.tryAry() {
